@@ -1,8 +1,9 @@
 pub mod c01;
+pub mod c02;
 pub mod exprspace;
 
 use crate::engine::Prop;
 
 pub fn all() -> Vec<Prop> {
-    vec![c01::PROP]
+    vec![c01::PROP, c02::PROP]
 }
